@@ -1,6 +1,7 @@
 package main
 
 import (
+	"os/exec"
 	"runtime/debug"
 	"runtime/pprof"
 	"go/types"
@@ -346,6 +347,9 @@ func cmdCheck(args []string) int {
 		sort.Strings(names)
 		os.MkdirAll(filepath.Join(*verifDir, "expected"), 0755)
 		os.WriteFile(filepath.Join(*verifDir, "expected", *prop+"."+*tier+".obligations"), []byte(strings.Join(names, "\n")+"\n"), 0644)
+		if out, err := exec.Command("git", "-C", "/repo", "rev-parse", "HEAD").Output(); err == nil {
+			os.WriteFile(filepath.Join(*verifDir, "reference_commit"), out, 0644)
+		}
 	}
 	rep := &Report{V: V, Prop: *prop, Tier: *tier, Seed: seed, Results: results, Start: start, LoadT: loadT, GenT: genT, VerifDir: *verifDir, Partial: fre2 != nil || ore2 != nil, NoEvidence: *noEvidence}
 	return rep.Finish()
